@@ -172,3 +172,15 @@ Definition insert_mark (cols : list colst) : list colst :=
                 else c) cols.
 Definition save_post (persisted has_counter : bool) (cols : list colst) : list colst :=
   if has_counter || can_update persisted cols then set_persisted cols else set_persisted (insert_mark cols).
+
+(* ------------------------------------------------------------------ BatchQuery (query.py): a queue of statements *)
+(* add_query appends; execute() sends the whole queue as one batch and then forgets it (self.queries = []);
+   __exit__ of the context manager is execute().  State: (queue, batches sent so far). *)
+Inductive bqop := BAdd (s : list cql) | BExecute.
+Definition bq_step (st : list cql * list (list cql)) (o : bqop) : list cql * list (list cql) :=
+  match o with
+  | BAdd s => (fst st ++ s, snd st)
+  | BExecute => ([], match fst st with [] => snd st | q => snd st ++ [q] end)     (* an empty batch is a no-op *)
+  end.
+Definition bq_run (ops : list bqop) : list cql * list (list cql) := fold_left bq_step ops ([], []).
+Definition bq_added (ops : list bqop) : list cql := flat_map (fun o => match o with BAdd s => s | BExecute => [] end) ops.
